@@ -14,8 +14,11 @@ from concurrent.futures import ThreadPoolExecutor
 
 import vlib
 
-FAMILIES = ("deploy", "pause", "health", "guided")
+FAMILIES = ("deploy", "pause", "health", "rollout", "guided")
 PSTATE = {0: "running", 1: "paused", 2: "stopped"}
+KIND = {"deploy": "deploy", "pause": "pause", "stop": "stop", "resume": "resume",
+        "rollout_deploy": "rdeploy", "rollout_set": "rset", "rollout_stop": "rstop", "remove": "remove"}
+RES = {"ok": "ok", "unhealthy": "unhealthy", "not_found": "not_found", "rollout_not_set": "not_set"}
 
 
 def scenarios(path):
@@ -54,13 +57,13 @@ def translate(evs):
     reqs, skip_reqs = [], set()
     for e in body:
         if e["ev"] == "cmd_call":
-            if e["kind"] not in ("deploy", "pause", "stop", "resume"):
+            if e["kind"] not in KIND:
                 return None, "command kind " + e["kind"]
             if e.get("svc") != "A":
                 return None, "other service"
             cidx[e["c"]] = len(cmds) + 1
-            cmds.append(e["kind"])
-            g = sorted(set(e.get("targets") or [])) if e["kind"] == "deploy" else []
+            cmds.append(KIND[e["kind"]])
+            g = sorted(set(e.get("targets") or [])) if e["kind"] in ("deploy", "rollout_deploy") else []
             if seen_targets & set(g):
                 return None, "target reused"
             seen_targets |= set(g)
@@ -87,18 +90,36 @@ def translate(evs):
             open_cmd, pc_seen = e, False
             if e["kind"] == "deploy":
                 out.append({"a": "DepCall", "k": cidx[e.get("c")]})
+            elif e["kind"] == "rollout_deploy":
+                pc_seen = True           # RdCall itself decides between "not found" and the deploy
+                out.append({"a": "RdCall", "k": cidx[e.get("c")]})
         elif ev == "e_dep_new_lb":
-            ver2k[e["ver"]] = cidx[e.get("c")]
+            if e.get("slot", 0) == 0:    # a rollout deploy works on the installed service object itself
+                ver2k[e["ver"]] = cidx[e.get("c")]
             lb2k[e["lb"]] = cidx[e.get("c")]
+        elif ev in ("e_rollout_split", "e_rollout_split_refused"):
+            if open_cmd is None:
+                return None, "rollout change outside a command"
+            pc_seen = True
+            k = cidx[open_cmd["c"]]
+            if ev == "e_rollout_split" and not e.get("on"):
+                out.append({"a": "RsStop", "k": k})
+            else:
+                out.append({"a": "RsSet", "k": k, "res": "ok" if ev == "e_rollout_split" else "not_set"})
         elif ev == "cmd_ret":
             k = cidx[e.get("c")]
-            if e["res"] not in ("ok", "unhealthy", "not_found"):
+            if e["res"] not in RES:
                 return None, "result " + e["res"]
             if open_cmd["kind"] != "deploy" and not pc_seen:
                 out.append({"a": "NotFound", "k": k})
             out.append({"a": "PreRet", "k": k})
-            out.append({"a": "Ret", "k": k, "res": e["res"]})
+            out.append({"a": "Ret", "k": k, "res": RES[e["res"]]})
             open_cmd = None
+        elif ev == "e_remove":
+            if open_cmd is None or open_cmd["kind"] != "remove":
+                return None, "remove outside a remove command"
+            pc_seen = True
+            out.append({"a": "Remove", "k": cidx[open_cmd["c"]]})
         elif ev == "e_pause_state":
             if open_cmd is None:
                 return None, "pause state change outside a command"
@@ -117,9 +138,9 @@ def translate(evs):
         elif ev == "y_dep_healthy":
             out.append({"a": "DepHealthy", "k": cidx[e.get("c")]})
         elif ev == "e_update_lb":
-            out.append({"a": "UpdateLb", "k": cidx[e.get("c")], "lb": lb2k[e["lb"]]})
+            out.append({"a": "UpdateLb", "k": cidx[e.get("c")], "lb": lb2k[e["lb"]], "slot": e.get("slot", 0)})
         elif ev == "e_install":
-            out.append({"a": "Install", "k": cidx[e.get("c")]})
+            out.append({"a": "Install", "k": cidx[e.get("c")], "ver": ver2k[e.get("ver", 0)]})
         elif ev == "y_dep_drained":
             out.append({"a": "DepDrained", "k": cidx[e.get("c")]})
         elif ev == "y_drain_start":
@@ -289,8 +310,10 @@ def _run_one(args):
         res.update(reached=o["reached"], next=o.get("next"))
     except Exception:
         res.update(reached=None, tail=p.stdout[-1500:])
-    if p.returncode != 0 and "tail" not in res:
-        res["tail"] = p.stdout[-800:]
+    if p.returncode != 0:
+        res["errors"] = [ln for ln in p.stdout.splitlines() if ln.startswith("Error:")][:4]
+        if "tail" not in res:
+            res["tail"] = p.stdout[-800:]
     return res
 
 
